@@ -85,7 +85,7 @@ def items_of(rest: Tree, rb: Rb, vendor: STR) -> Items:
     if not rest:
         return []
     row = dhead(rest)[0]
-    cd = not row.startswith(REG[vendor].reverse)
+    cd = not row.startswith(REG[vendor].reverse + " ")       # a removal: the vendor's negation WORD, then the command
     return [{"row": row, "children": oc(dhead(rest)[1], rb_of(rb, vendor, row, cd), vendor), "direct": dir_of(rb, vendor, row, cd),
              "order": ord_of(rb, vendor, row, cd)}] + items_of(dtail(rest), rb, vendor)
 
@@ -266,7 +266,20 @@ a *
 
     def tree(nested):
         return odict((r, tree(ch or [])) for r, ch in nested)
+    texts.append("""
+first *
+p *
+    first *
+    q *
+        first *
+        r2 *
+        r1 *
+{neg}tify *
+""")
     cfgs = [[], [["b 1", None], ["a 2", None], ["zz", None], ["a 1", None]],
+            [["p 1", [["q 1", [["r1 a", None], ["r2 b", None]]]]]],                                   # a block that is an only child
+            [["zz", None], ["p 1", [["q 1", [["r1 a", None], ["r2 b", None], ["{neg} r1 c", None]]]]], ["{neg}tify 1", None],
+             ["{neg} {neg}tify 1", None], ["first 1", None]],
             [["{neg} b 1", None], ["{neg} a 1", None], ["a 1", None], ["b 2", None], ["{neg} b 2", None]],
             [["zz", None], ["c", [["z", None], ["{neg} y 1", None], ["y 2", None], ["x 1", None], ["d 5", None], ["q", None]]], ["a 1", None],
              ["d 1 2", None]],
@@ -274,7 +287,7 @@ a *
     for vendor in ("huawei", "cisco", "juniper", "nosuchvendor"):
         neg = {"huawei": "undo", "cisco": "no", "juniper": "delete"}.get(vendor, "no")
         for text in texts:
-            rb = compile_ordering_text(text, vendor) if vendor != "nosuchvendor" else odict()
+            rb = compile_ordering_text(text.replace("{neg}", neg), vendor) if vendor != "nosuchvendor" else odict()
             for cfg in cfgs:
                 def sub(n):
                     return [[r.replace("{neg}", neg), sub(ch) if ch else None] for r, ch in n]
